@@ -396,3 +396,298 @@ Section SCH.
     Qed.
   End CWIN.
 End SCH.
+
+(* ---------------------------------------------------------------- C17: monotonicity of the path-win count is refuted *)
+(* a boolean check of [raises] over the candidates (outside them every count is 0) *)
+Lemma pget0_outside (v : pvotes) a b : ~ In a (candidates v) \/ ~ In b (candidates v) -> pget0 v (a, b) = 0.
+Proof.
+  intros H. unfold pget0. destruct (pget v (a, b)) as [n|] eqn:E; [|reflexivity]. exfalso. apply pget_In in E.
+  destruct H as [H|H]; apply H; apply candidates_spec; exists (a, b), n; (split; [exact E|]); [left|right]; reflexivity.
+Qed.
+
+Definition raises_b (v v' : pvotes) (w : C) : bool :=
+  forallb (fun x => (pget0 v (w, x) <=? pget0 v' (w, x)) && (pget0 v' (x, w) <=? pget0 v (x, w))) (candidates v) &&
+  forallb (fun a => forallb (fun b => ceqb a w || ceqb b w || (pget0 v' (a, b) =? pget0 v (a, b))) (candidates v)) (candidates v).
+
+Lemma raises_b_sound v v' w : candidates v' = candidates v -> raises_b v v' w = true -> raises v v' w.
+Proof.
+  intros Hc H. unfold raises_b in H. apply andb_true_iff in H. destruct H as [H1 H2].
+  rewrite forallb_forall in H1. rewrite forallb_forall in H2.
+  split; [exact Hc|]. split.
+  - intros x. destruct (in_dec Pos.eq_dec x (candidates v)) as [Hx|Hx].
+    + specialize (H1 x Hx). apply andb_true_iff in H1. destruct H1 as [Ha Hb]. apply Z.leb_le in Ha. apply Z.leb_le in Hb. split; assumption.
+    + rewrite (pget0_outside v w x), (pget0_outside v x w) by tauto.
+      rewrite (pget0_outside v' w x), (pget0_outside v' x w) by (rewrite Hc; tauto). lia.
+  - intros a b Ha Hb. destruct (in_dec Pos.eq_dec a (candidates v)) as [Hia|Hia].
+    + destruct (in_dec Pos.eq_dec b (candidates v)) as [Hib|Hib].
+      * specialize (H2 a Hia). rewrite forallb_forall in H2. specialize (H2 b Hib).
+        apply Pos.eqb_neq in Ha. apply Pos.eqb_neq in Hb. unfold ceqb in H2. rewrite Ha, Hb in H2. simpl in H2. apply Z.eqb_eq in H2. exact H2.
+      * rewrite (pget0_outside v a b) by tauto. rewrite (pget0_outside v' a b) by (rewrite Hc; tauto). reflexivity.
+    + rewrite (pget0_outside v a b) by tauto. rewrite (pget0_outside v' a b) by (rewrite Hc; tauto). reflexivity.
+Qed.
+
+(* Witness: the pairwise counts of the ranked profile
+     B>A>D>C>E x1, E>D>C x3, E>B>A>C>D x1, C>A>B>E>D x3, B>D>A>E>C x2, A>D>C x1, E>C>B>A>D x1
+   (A..E = 1..5; RankedToCondorcetVotes), before and after the single ballot B>A>D>C>E becomes B>A>C>D>E
+   (C moves one place up: (C,D) 5 -> 6, (D,C) 7 -> 6).  Before: C is the only candidate with two path-wins and
+   wins alone; after: D no longer reaches anybody, A and E gain a path-win over B each and tie with C. *)
+Definition mk_pv (l : list (Z * Z * Z)) : pvotes := map (fun x => ((Z.to_pos (fst (fst x)), Z.to_pos (snd (fst x))), snd x)) l.
+Definition mono_v : pvotes := mk_pv
+  [(1,2,4);(1,3,5);(1,4,7);(1,5,7);(2,1,5);(2,3,4);(2,4,8);(2,5,6);(3,1,7);(3,2,8);(3,4,5);(3,5,5);
+   (4,1,5);(4,2,4);(4,3,7);(4,5,4);(5,1,5);(5,2,5);(5,3,7);(5,4,8)].
+Definition mono_v' : pvotes := mk_pv
+  [(1,2,4);(1,3,5);(1,4,7);(1,5,7);(2,1,5);(2,3,4);(2,4,8);(2,5,6);(3,1,7);(3,2,8);(3,4,6);(3,5,5);
+   (4,1,5);(4,2,4);(4,3,6);(4,5,4);(5,1,5);(5,2,5);(5,3,7);(5,4,8)].
+
+Definition nodup_keys_b (v : pvotes) : bool :=
+  (fix go (l : list pair) : bool := match l with [] => true | p :: t => negb (existsb (peqb p) t) && go t end) (map fst v).
+Lemma nodup_keys_b_sound v : nodup_keys_b v = true -> NoDup (map fst v).
+Proof.
+  unfold nodup_keys_b. induction (map fst v) as [|p t IH]; intros H; [constructor|].
+  apply andb_true_iff in H. destruct H as [H1 H2]. constructor; [|apply IH, H2].
+  intros Hin. apply negb_true_iff in H1. assert (Hex : existsb (peqb p) t = true) by (apply existsb_exists; exists p; split; [exact Hin|apply peqb_refl]).
+  congruence.
+Qed.
+Lemma nonneg_b_sound (v : pvotes) : forallb (fun pn : pair * Z => 0 <=? snd pn) v = true -> forall p n, In (p, n) v -> 0 <= n.
+Proof. intros H p n Hin. rewrite forallb_forall in H. specialize (H _ Hin). apply Z.leb_le in H. exact H. Qed.
+
+Theorem schulze_monotone_refuted :
+  NoDup (map fst mono_v) /\ NoDup (map fst mono_v') /\
+  (forall p n, In (p, n) mono_v -> 0 <= n) /\ (forall p n, In (p, n) mono_v' -> 0 <= n) /\
+  raises mono_v mono_v' 3%positive /\
+  schulze mono_v (candidates mono_v) 1 = [Cand 3%positive] /\
+  schulze mono_v' (candidates mono_v') 1 = [TieR [1%positive; 3%positive; 5%positive]].
+Proof.
+  split; [apply nodup_keys_b_sound; vm_compute; reflexivity|].
+  split; [apply nodup_keys_b_sound; vm_compute; reflexivity|].
+  split; [apply nonneg_b_sound; vm_compute; reflexivity|].
+  split; [apply nonneg_b_sound; vm_compute; reflexivity|].
+  split; [apply raises_b_sound; vm_compute; reflexivity|].
+  split; vm_compute; reflexivity.
+Qed.
+
+(* ---------------------------------------------------------------- the table is the table of strongest beat-paths *)
+Definition le_tab (p q : pvotes) : Prop := forall x, pget0 p x <= pget0 q x.
+Lemma le_tab_refl p : le_tab p p.
+Proof. intros x. lia. Qed.
+Lemma le_tab_trans p q r : le_tab p q -> le_tab q r -> le_tab p r.
+Proof. intros H1 H2 x. specialize (H1 x). specialize (H2 x). lia. Qed.
+
+Lemma wp_upd_get' paths c1 c2 ca x : pget0 (wp_upd paths c1 c2 ca) x =
+  if peqb x (c2, ca) then Z.max (pget0 paths (c2, ca)) (Z.min (pget0 paths (c2, c1)) (pget0 paths (c1, ca)))
+  else pget0 paths x.
+Proof. unfold wp_upd. apply pget0_pset. Qed.
+
+Lemma wp_upd_mono paths c1 c2 ca : le_tab paths (wp_upd paths c1 c2 ca).
+Proof.
+  intros x. rewrite wp_upd_get'. destruct (peqb x (c2, ca)) eqn:E; [|lia]. apply peqb_eq in E. subst x. lia.
+Qed.
+Lemma wp_inner_mono c1 c2 paths ca : le_tab paths (wp_inner c1 c2 paths ca).
+Proof. unfold wp_inner. destruct (_ || _); [apply le_tab_refl|apply wp_upd_mono]. Qed.
+Lemma fold_mono {B} (f : pvotes -> B -> pvotes) (l : list B) :
+  (forall a x, le_tab a (f a x)) -> forall a, le_tab a (fold_left f l a).
+Proof.
+  intros H a. apply (fold_left_ind_in (fun r => le_tab a r)); [|apply le_tab_refl].
+  intros r x _ Hr. eapply le_tab_trans; [exact Hr|apply H].
+Qed.
+Lemma wp_mid_mono order c1 paths c2 : le_tab paths (wp_mid order c1 paths c2).
+Proof. unfold wp_mid. destruct (ceqb c1 c2); [apply le_tab_refl|]. apply fold_mono. intros a x. apply wp_inner_mono. Qed.
+Lemma wp_outer_mono order paths c1 : le_tab paths (wp_outer order paths c1).
+Proof. unfold wp_outer. apply fold_mono. intros a x. apply wp_mid_mono. Qed.
+
+Lemma fold_left_establish {A B} (J : A -> Prop) (Q : B -> A -> Prop) (f : A -> B -> A) (l : list B) :
+  (forall a x, In x l -> J a -> J (f a x)) ->
+  (forall a x, In x l -> J a -> Q x (f a x)) ->
+  (forall a x y, In x l -> J a -> Q y a -> Q y (f a x)) ->
+  forall a, J a -> J (fold_left f l a) /\ forall x, In x l -> Q x (fold_left f l a).
+Proof.
+  intros HJ HQ HS a Ha.
+  assert (H : forall l' a', (forall x, In x l' -> In x l) -> J a' ->
+            J (fold_left f l' a') /\ (forall y, Q y a' -> Q y (fold_left f l' a')) /\ forall x, In x l' -> Q x (fold_left f l' a')).
+  { induction l' as [|x l' IH]; intros a' Hsub Ha'; simpl; [split; [exact Ha'|split; [tauto|intros x []]]|].
+    assert (Hx : In x l) by (apply Hsub; left; reflexivity).
+    destruct (IH (f a' x) (fun y Hy => Hsub y (or_intror Hy)) (HJ a' x Hx Ha')) as (I1 & I2 & I3).
+    split; [exact I1|]. split.
+    - intros y Hy. apply I2. apply HS; assumption.
+    - intros y [<-|Hy]; [apply I2, HQ; assumption|apply I3, Hy]. }
+  destruct (H l a (fun x Hx => Hx) Ha) as (H1 & _ & H3). split; assumption.
+Qed.
+
+Lemma fold_left_prefix {A B} (Inv : list B -> A -> Prop) (f : A -> B -> A) (l : list B) :
+  (forall pre x a, In x l -> Inv pre a -> Inv (pre ++ [x]) (f a x)) ->
+  forall pre a, Inv pre a -> Inv (pre ++ l) (fold_left f l a).
+Proof.
+  induction l as [|x l IH]; intros H pre a Ha; simpl; [rewrite app_nil_r; exact Ha|].
+  replace (pre ++ x :: l) with ((pre ++ [x]) ++ l) by (rewrite <- app_assoc; reflexivity).
+  apply IH; [intros pre' y a' Hy; apply H; right; exact Hy|]. apply H; [left; reflexivity|exact Ha].
+Qed.
+
+(* one phase of the outer loop (intermediate candidate k): row k and column k are untouched, nothing shrinks, and
+   every other entry (c2, ca) has absorbed min (c2 -> k) (k -> ca) *)
+Section PHASE.
+  Variable order : list C.
+  Variable k : C.
+  Variable P0 : pvotes.
+
+  Definition keepk (paths : pvotes) : Prop :=
+    le_tab P0 paths /\ (forall x, pget0 paths (x, k) = pget0 P0 (x, k)) /\ (forall x, pget0 paths (k, x) = pget0 P0 (k, x)).
+
+  Lemma keepk_upd paths c2 ca : c2 <> k -> ca <> k -> keepk paths -> keepk (wp_upd paths k c2 ca).
+  Proof.
+    intros H2 Ha (Hm & Hc & Hr). split; [eapply le_tab_trans; [exact Hm|apply wp_upd_mono]|]. split.
+    - intros x. rewrite wp_upd_get'. destruct (peqb (x, k) (c2, ca)) eqn:E; [|apply Hc]. apply peqb_eq in E. congruence.
+    - intros x. rewrite wp_upd_get'. destruct (peqb (k, x) (c2, ca)) eqn:E; [|apply Hr]. apply peqb_eq in E. congruence.
+  Qed.
+
+  Lemma keepk_inner c2 paths ca : c2 <> k -> keepk paths -> keepk (wp_inner k c2 paths ca).
+  Proof.
+    intros H2 HK. unfold wp_inner. destruct (ceqb ca k) eqn:E1; [exact HK|]. destruct (ceqb ca c2) eqn:E2; [exact HK|].
+    simpl. apply Pos.eqb_neq in E1. apply keepk_upd; assumption.
+  Qed.
+
+  Definition absorbed (c2 ca : C) (paths : pvotes) : Prop :=
+    c2 <> k -> ca <> k -> ca <> c2 -> Z.min (pget0 P0 (c2, k)) (pget0 P0 (k, ca)) <= pget0 paths (c2, ca).
+
+  Lemma absorbed_mono c2 ca p q : le_tab p q -> absorbed c2 ca p -> absorbed c2 ca q.
+  Proof. intros Hm H A B D. specialize (H A B D). specialize (Hm (c2, ca)). lia. Qed.
+
+  Lemma phase_mid c2 paths : keepk paths ->
+    keepk (wp_mid order k paths c2) /\ forall ca, In ca order -> absorbed c2 ca (wp_mid order k paths c2).
+  Proof.
+    intros HK. unfold wp_mid. destruct (ceqb k c2) eqn:E.
+    - apply Pos.eqb_eq in E. split; [exact HK|]. intros ca _ A. congruence.
+    - apply Pos.eqb_neq in E. assert (E' : c2 <> k) by congruence.
+      apply (fold_left_establish keepk (absorbed c2) (wp_inner k c2) order).
+      + intros a x _ Ha. apply keepk_inner; assumption.
+      + intros a ca _ (Hm & Hc & Hr) A B D. unfold wp_inner.
+        apply Pos.eqb_neq in B. apply Pos.eqb_neq in D. unfold ceqb. rewrite B, D. simpl.
+        rewrite wp_upd_get', peqb_refl, Hc, Hr. lia.
+      + intros a x y _ _. apply absorbed_mono, wp_inner_mono.
+      + exact HK.
+  Qed.
+
+  Lemma phase_outer : keepk P0 -> keepk (wp_outer order P0 k) /\
+    forall c2 ca, In c2 order -> In ca order -> absorbed c2 ca (wp_outer order P0 k).
+  Proof.
+    intros HK. unfold wp_outer.
+    destruct (fold_left_establish keepk (fun c2 paths => forall ca, In ca order -> absorbed c2 ca paths) (wp_mid order k) order) with (a := P0) as [H1 H2].
+    - intros a x _ Ha. apply phase_mid, Ha.
+    - intros a x _ Ha. apply phase_mid, Ha.
+    - intros a x y _ _ Hy ca Hca. eapply absorbed_mono; [apply wp_mid_mono|apply Hy, Hca].
+    - exact HK.
+    - split; [exact H1|]. intros c2 ca H2' Hca. apply H2; assumption.
+  Qed.
+End PHASE.
+
+Lemma keepk_refl k P0 : keepk k P0 P0.
+Proof. split; [apply le_tab_refl|]. split; reflexivity. Qed.
+
+Section PATHS.
+  Variable v : pvotes.
+  Hypothesis Hnd : NoDup (map fst v).
+  Hypothesis Hnn : forall p n, In (p, n) v -> 0 <= n.
+  Notation cs := (candidates v).
+  Notation d := (d0 v).
+
+  (* reach s a b: there is a chain of direct wins from a to b, each with at least s winning votes *)
+  Inductive reach (s : Z) : C -> C -> Prop :=
+  | reach_one a b : s <= d a b -> reach s a b
+  | reach_step a m b : s <= d a m -> reach s m b -> reach s a b.
+
+  Lemma reach_trans s a m b : reach s a m -> reach s m b -> reach s a b.
+  Proof. induction 1 as [a m H|a x m H _ IH]; intros Hb; [eapply reach_step; eassumption|eapply reach_step; [exact H|apply IH, Hb]]. Qed.
+
+  (* soundness, any order: an entry of at least s is witnessed by a chain *)
+  Theorem wp_sound order a b s : s <= pget0 (widest_paths v order) (a, b) -> reach s a b.
+  Proof.
+    revert a b s. apply (wp_ind (fun paths => forall a b s, s <= pget0 paths (a, b) -> reach s a b)).
+    - intros a b s. rewrite (wp_init_get v Hnd). apply reach_one.
+    - intros paths c1 c2 ca _ _ _ _ _ _ IH a b s. rewrite wp_upd_get'.
+      destruct (peqb (a, b) (c2, ca)) eqn:E; [|apply IH]. apply peqb_eq in E. injection E as -> ->. intros H.
+      destruct (Z_le_gt_dec s (pget0 paths (c2, ca))) as [Hle|Hgt]; [apply IH, Hle|].
+      apply (reach_trans s c2 c1 ca); apply IH; lia.
+  Qed.
+
+  (* chains whose intermediate candidates all lie in K *)
+  Inductive reachK (s : Z) (K : list C) : C -> C -> Prop :=
+  | rk_one a b : s <= d a b -> reachK s K a b
+  | rk_step a m b : In m K -> reachK s K a m -> reachK s K m b -> reachK s K a b.
+
+  Lemma reachK_split s K K' k : (forall m, In m K' -> m = k \/ In m K) ->
+    forall a b, reachK s K' a b -> reachK s K a b \/ (reachK s K a k /\ reachK s K k b).
+  Proof.
+    intros HK. induction 1 as [a b H|a m b Hm _ IH1 _ IH2]; [left; apply rk_one, H|].
+    destruct (HK m Hm) as [->|Hin].
+    - right. split; [destruct IH1 as [H|[H _]]; exact H|destruct IH2 as [H|[_ H]]; exact H].
+    - destruct IH1 as [L1|[A1 B1]], IH2 as [L2|[A2 B2]].
+      + left. eapply rk_step; eassumption.
+      + right. split; [eapply rk_step; eassumption|exact B2].
+      + right. split; [exact A1|eapply rk_step; eassumption].
+      + right. split; assumption.
+  Qed.
+
+  Lemma d_pos_cs a b s : 0 < s -> s <= d a b -> In a cs /\ In b cs.
+  Proof.
+    intros Hs H. assert (Hp : 0 < d a b) by lia. destruct (d0_pos v a b Hp) as [_ He]. rewrite He in Hp. apply (pos_in_cs v a b Hp).
+  Qed.
+
+  Lemma reachK_cs s K a b : 0 < s -> reachK s K a b -> In a cs /\ In b cs.
+  Proof. intros Hs. induction 1 as [a b H|a m b _ _ IH1 _ IH2]; [apply (d_pos_cs a b s Hs H)|tauto]. Qed.
+
+  Lemma reach_reachK s K a b : 0 < s -> incl cs K -> reach s a b -> reachK s K a b.
+  Proof.
+    intros Hs HK. induction 1 as [a b H|a m b H _ IH]; [apply rk_one, H|].
+    apply (rk_step s K a m b); [apply HK; apply (d_pos_cs a m s Hs H)|apply rk_one, H|exact IH].
+  Qed.
+
+  Definition complete_upto (K : list C) (paths : pvotes) : Prop :=
+    forall s a b, 0 < s -> a <> b -> reachK s K a b -> s <= pget0 paths (a, b).
+
+  (* completeness, orders that list every candidate: every chain is accounted for *)
+  Theorem wp_complete order a b s : incl cs order -> 0 < s -> a <> b -> reach s a b ->
+    s <= pget0 (widest_paths v order) (a, b).
+  Proof.
+    intros Hincl Hs Hab Hr. rewrite widest_paths_unfold.
+    assert (Hinv : complete_upto ([] ++ order) (fold_left (wp_outer order) order (wp_init v))).
+    { apply (fold_left_prefix complete_upto (wp_outer order) order).
+      - intros pre k P0 Hk Hinv s' a' b' Hs' Hab' Hr'.
+        destruct (phase_outer order k P0 (keepk_refl k P0)) as [(Hm & _ & _) Habs].
+        destruct (reachK_cs s' _ a' b' Hs' Hr') as [Ha' Hb'].
+        destruct (reachK_split s' pre (pre ++ [k]) k) with (a := a') (b := b') as [L|[A B]].
+        + intros m Hm'. apply in_app_iff in Hm'. destruct Hm' as [H|[H|[]]]; [right; exact H|left; congruence].
+        + exact Hr'.
+        + specialize (Hinv s' a' b' Hs' Hab' L). specialize (Hm (a', b')). lia.
+        + destruct (Pos.eq_dec a' k) as [->|Hak].
+          { specialize (Hinv s' k b' Hs' Hab' B). specialize (Hm (k, b')). lia. }
+          destruct (Pos.eq_dec b' k) as [->|Hbk].
+          { specialize (Hinv s' a' k Hs' Hab' A). specialize (Hm (a', k)). lia. }
+          pose proof (Hinv s' a' k Hs' Hak A) as H1. pose proof (Hinv s' k b' Hs' (fun E => Hbk (eq_sym E)) B) as H2.
+          pose proof (Habs a' b' (Hincl a' Ha') (Hincl b' Hb') Hak Hbk (fun E => Hab' (eq_sym E))) as H3. lia.
+      - intros s' a' b' Hs' Hab' Hr'. inversion Hr' as [? ? H|? m ? Hm]; subst; [|destruct Hm].
+        rewrite (wp_init_get v Hnd). exact H. }
+    simpl in Hinv. apply Hinv; [exact Hs|exact Hab|]. apply reach_reachK; assumption.
+  Qed.
+
+  Theorem wp_spec order a b s : incl cs order -> 0 < s -> a <> b ->
+    (s <= pget0 (widest_paths v order) (a, b) <-> reach s a b).
+  Proof. intros Hi Hs Hab. split; [apply wp_sound|apply wp_complete; assumption]. Qed.
+
+  Lemma wp_diag order a : pget0 (widest_paths v order) (a, a) = 0.
+  Proof.
+    pose proof (P_nonneg0 v Hnd Hnn order (a, a)) as H0. destruct (wp_G v Hnd order) as (_ & _ & Gp).
+    destruct (Z.eq_dec (pget0 (widest_paths v order) (a, a)) 0) as [E|E]; [exact E|].
+    assert (Hp : 0 < pget0 (widest_paths v order) (a, a)) by lia. apply Gp in Hp. tauto.
+  Qed.
+
+  (* the table does not depend on the order in which the candidate set is iterated *)
+  Theorem wp_order_irrelevant order1 order2 p : incl cs order1 -> incl cs order2 ->
+    pget0 (widest_paths v order1) p = pget0 (widest_paths v order2) p.
+  Proof.
+    intros H1 H2. destruct p as [a b]. destruct (Pos.eq_dec a b) as [->|Hab]; [rewrite !wp_diag; reflexivity|].
+    assert (Hle : forall o o', incl cs o -> incl cs o' -> pget0 (widest_paths v o) (a, b) <= pget0 (widest_paths v o') (a, b)).
+    { intros o o' Ho Ho'. pose proof (P_nonneg0 v Hnd Hnn o' (a, b)) as H0.
+      destruct (Z_le_gt_dec (pget0 (widest_paths v o) (a, b)) 0) as [Hz|Hp]; [lia|].
+      apply (wp_complete o' a b _ Ho'); [lia|exact Hab|]. apply (wp_sound o). lia. }
+    apply Z.le_antisymm; apply Hle; assumption.
+  Qed.
+End PATHS.
